@@ -419,7 +419,12 @@ def textFromEventDict(eventDict: EventDict) -> Optional[str]:
     if not edm:
         if eventDict["isError"] and "failure" in eventDict:
             why = cast(str, eventDict.get("why"))
-            if why:
+            try:
+                hasWhy = bool(why)
+            except BaseException:
+                # An object whose truth value cannot be determined.
+                hasWhy = True
+            if hasWhy:
                 why = reflect.safe_str(why)
             else:
                 why = "Unhandled Error"
